@@ -3,6 +3,8 @@
 #include "engine_core.hpp"
 #include <dirent.h>
 #include <algorithm>
+#include <chrono>
+#include <map>
 using namespace vf;
 static std::string arg_of(int argc, char **argv, const char *name, const char *def) { for (int i = 1; i + 1 < argc; i++) if (!strcmp(argv[i], name)) return argv[i + 1]; return def; }
 int main(int argc, char **argv) {
@@ -15,8 +17,15 @@ int main(int argc, char **argv) {
   std::vector<std::string> files;
   if (DIR *d = opendir(dir.c_str())) { while (dirent *e = readdir(d)) { std::string n = e->d_name; if (n.size() > 5 && n.substr(n.size() - 5) == ".case") files.push_back(dir + "/" + n); } closedir(d); }
   std::sort(files.begin(), files.end());
+  // --shard i/k: this process takes every k-th file; --budget S: stop opening cases after S seconds (truncates, never decides)
+  int shard_i = 0, shard_k = 1; { std::string sh = arg_of(argc, argv, "--shard", "0/1"); sscanf(sh.c_str(), "%d/%d", &shard_i, &shard_k); if (shard_k < 1) shard_k = 1; }
+  double budget = atof(arg_of(argc, argv, "--budget", "0").c_str());
+  auto t0 = std::chrono::steady_clock::now();
   std::map<std::string, SubStats> st; bool any = false;
+  size_t idx = 0;
   for (auto &f : files) {
+    if ((int)(idx++ % (size_t)shard_k) != shard_i) continue;
+    if (budget > 0 && std::chrono::duration<double>(std::chrono::steady_clock::now() - t0).count() > budget) break;
     std::string text; Case c; if (!read_file(f, text) || !parse_case(text, c)) continue;
     const Sub *s = find_sub(c.sub); if (!s) continue;
     c.nontrivial = true;
